@@ -61,6 +61,7 @@ func (x *vc) contractEnv(fr *frame, st *state, hdr *ssa.BasicBlock) *cenv {
 			}
 		}
 	}
+	aliasRenamed(fr.fn, env) // a renamed parameter or captured variable keeps the name the contract was written with
 	// "self": the function itself as a value (function-type contracts relate it to dispatch tables)
 	env.vars["self"] = x.value(fr, st, fr.fn)
 	return env
@@ -493,6 +494,12 @@ func (x *vc) evalIdent(env *cenv, name string) Val {
 	}
 	if v, ok := x.pkgObject(env, env.pkg, name); ok {
 		return v
+	}
+	// a renamed local: the baseline name stands for the variable declared at the same ordinal now (alias.go)
+	if env.fr != nil {
+		if nn := renamedLocals(env.fr.fn)[name]; nn != "" && nn != name {
+			return x.evalIdent(env, nn)
+		}
 	}
 	known := ""
 	if env.fr != nil {
